@@ -592,7 +592,7 @@ def run(ck):
         singles.sort(key=stream_key)
         pairs.sort(key=stream_key)
         r_ = rng(32)
-        pairs = r_.sample(pairs, min(len(pairs), ck.pick(60, 1200)))
+        pairs = r_.sample(pairs, min(len(pairs), ck.pick(40, 1200)))
         ck.exhaustive = False  # every atom is replayed (singles); pairs are sampled
         tid = 0
         for reqs in singles + pairs:
@@ -603,7 +603,7 @@ def run(ck):
         atoms = {}
         for s in singles:
             atoms.setdefault(s[0]["t"]["eapi"], []).append(s[0])
-        for _ in range(ck.pick(30, 600)):
+        for _ in range(ck.pick(20, 600)):
             eapi = r_.choice(["8", "8", "8", "8", "7", "6", "3"])
             pool = atoms[eapi]
             reqs = [r_.choice(pool) for _ in range(r_.randint(3, 8))]
